@@ -138,16 +138,30 @@ def formula_of(c):
     return (f'=-{a}' if k == 'neg' else f'={a}%'), {}
 
 
+def _loose_num(tok):
+    """like _num_of, but text is read with python's own float() too (so that a tree with a laxer grammar, e.g. the
+    pinned one reading "1_0" as 10, is not sent into 10 ** 10**15 either)"""
+    v = _num_of(tok)
+    if v == 'text':
+        try:
+            f = float(core.dec(tok))
+            return Fraction(f) if f == f and abs(f) != float('inf') else v
+        except ValueError:
+            return v
+    return v
+
+
 def _pow_moderate(c):
-    """python computes int ** int exactly: 10 ^ 1e15 never finishes.  Moderate magnitude = result below ~5000 digits"""
+    """python computes int ** int exactly: 10 ^ 1e15 never finishes.  Moderate magnitude = result below ~4000 digits
+    (python refuses str(int) beyond 4300 digits, which the harness encoding needs)"""
     if c['k'] != 'op' or c['op'] != 'Pow':
         return True
-    x, y = _num_of(c['l']), _num_of(c['r'])
+    x, y = _loose_num(c['l']), _loose_num(c['r'])
     if not isinstance(x, Fraction) or not isinstance(y, Fraction) or x == 0:
         return True
     import math
     mag = abs(math.log10(abs(float(x)))) if x != 0 else 0
-    return abs(y) <= 1100 and abs(float(y)) * max(mag, 0.31) <= 5000
+    return abs(y) <= 1100 and abs(float(y)) * max(mag, 0.31) <= 4000
 
 
 def _float_spelled_int(tok):
